@@ -398,12 +398,12 @@ Section Cache.
         rewrite Hk, Hid1 in Hk'. apply keyf_inj in Hk'. destruct Hk' as (? & ? & ? & ?); subst t' wf' so' no'.
         cbn [fst snd]. split.
         * intros en2 Hin2. cbn [cs_cache cs_epoch] in *. exact (Hinv en2 Hin2).
-        * unfold accept1. rewrite Hres. reflexivity.
+        * unfold accept1. rewrite Hres. destruct (common1 ku (cs_epoch s) wf t so no); reflexivity.
       + cbn [fst snd]. split.
         * intros en2 Hin2. cbn [cs_cache cs_epoch] in *. destruct Hin2 as [Hin2|Hin2].
           -- subst en2. exists t, wf, so, no. cbn. split; [exact Hid1|reflexivity].
           -- exact (Hinv en2 Hin2).
-        * reflexivity.
+        * unfold accept1. destruct (common1 ku (cs_epoch s) wf t so no); reflexivity.
     - subst reset. cbn. split; [intros en []|reflexivity].
   Qed.
 
